@@ -16,15 +16,22 @@ PID = 'C20'
 RULE = ('random cases per helper: mix_and_split, adjust_moisture_content, mix_and_split_with_moisture_content, partition / phase_fraction (K in 10^U(-3,3), optional phi guess, '
         'forced top/bottom chemicals, chemicals in none of the lists, strict on/off), phase_split, chemical_splits, material_balance (invertible inlet matrices), and the vle / lle wrappers '
         '(efficiency in [0,1]); feeds of 1-6 chemicals with flows 10^U(-2,3) incl. zeros; outlets fresh and holding stale content from a previous run. '
+        'Coverage additions: moisture adjustment with ID= (non-water moisture) and with MultiStream retentate / permeate (moisture partly outside the liquid phase); a single forced chemical given as '
+        'a bare string; equal / repeated / unit K values; partition_coefficients() of the outlets against the given K, vle_/lle_partition_coefficients() of the wrapper outlets; vle driven by duty Q, by x / y '
+        '(binary feeds), far below bubble / above dew, and with a stale multi_stream=; lle with multi_stream= and single-liquid-phase feeds; phase_split of a single-phase Stream; mix_and_split with '
+        'MultiStream / gas inlets and with the top outlet among the inlets. '
         'non-trivial = >=2 chemicals flowing and both outlets non-empty (or a non-degenerate target); distinct = hash of the case')
 MIN_NONTRIVIAL = {'quick': 400, 'thorough': 15000}
 ASSUMPTIONS = ['the vle / lle wrappers are driven with water/alcohol(/octanol) feeds inside the model ranges; their equilibrium quality is C04/C15, only the routing and balance are judged here',
-               'moisture adjustment is judged only when the permeate holds enough water (otherwise the documented InfeasibleRegion is expected)']
+               'moisture adjustment is judged only when the permeate holds enough water (otherwise the documented InfeasibleRegion is expected)',
+               "material_balance(balance='composition') is not judged: it is an iteration to a loose tolerance on compositions, not the statement's 'inlets minus outlets vanish'"]
 IDS = ('Water', 'Ethanol', 'Octanol', 'Methanol', 'O2', 'Glucose')
 
 
 def required(tier):
-    return ['mix_and_split', 'moisture', 'partition', 'partition:stale-outlets', 'partition:forced', 'phase_fraction', 'phase_split', 'chemical_splits', 'material_balance', 'material_balance:lstsq', 'moisture:strict=False:short', 'vle-wrapper', 'lle-wrapper']
+    return ['mix_and_split', 'moisture', 'partition', 'partition:stale-outlets', 'partition:forced', 'phase_fraction', 'phase_split', 'chemical_splits', 'material_balance', 'material_balance:lstsq', 'moisture:strict=False:short', 'vle-wrapper', 'lle-wrapper',
+            'moisture:ID', 'moisture:multistream', 'moisture:multistream:moisture-in-other-phase', 'forced:bare-string', 'partition:equal-K', 'partition:unit-K', 'partition_coefficients', 'vle:Q', 'vle:x-or-y', 'vle:one-outlet-empty',
+            'vle:multi_stream', 'vle_partition_coefficients', 'lle:multi_stream', 'lle:single-liquid', 'lle_partition_coefficients', 'phase_split:stream', 'mix_and_split:multistream-inlet', 'mix_and_split:top-among-inlets']
 
 
 def arr(s): return s.mol.to_array() if hasattr(s.mol, 'to_array') else np.asarray(s.mol, float)
@@ -50,10 +57,21 @@ def gen_case(rng):
         c['ins'] = [gflows(rng, n) for _ in range(rng.randrange(1, 4))]
         c['split'] = rng.choice([round(rng.random(), 4), 0.0, 1.0]) if rng.random() < 0.4 else [rng.choice([0.0, 1.0, round(rng.random(), 4)]) for _ in range(n)]
         c['mc'] = round(rng.uniform(0.02, 0.95), 4)
+        c['mID'] = rng.choice([None, None, 'Ethanol', 'Methanol'])
+        c['ms_in'] = [rng.random() < 0.25 for _ in c['ins']]                     # this inlet is a gas/liquid MultiStream (its flows divided between the phases)
+        c['gas_in'] = [rng.random() < 0.15 for _ in c['ins']]                    # this inlet is a gas stream
+        c['top_in'] = t == 'mix_and_split' and rng.random() < 0.15              # the top outlet (with its content) is also the last inlet
+        c['frac'] = [round(rng.random(), 3) for _ in range(n)]
     elif t == 'moisture':
         c['ret'] = gflows(rng, n); c['perm'] = gflows(rng, n); c['mc'] = round(rng.uniform(0.02, 0.95), 4)
         c['enough'] = rng.random() < 0.85
         c['strict'] = rng.choice([None, None, True, False])
+        c['mID'] = rng.choice([None, None, 'Ethanol', 'Methanol'])
+        if rng.random() < 0.3:
+            c['ms'] = rng.choice(['ls', 'lg'])                                   # retentate and permeate are MultiStreams; the liquid row holds c['ret'] / c['perm']
+            c['ret2'] = gflows(rng, n, pzero=0.6); c['perm2'] = gflows(rng, n, pzero=0.8)
+            if rng.random() < 0.7:
+                m = IDS.index(c['mID'] or 'Water'); c['ret2'][m] = 0.0; c['perm2'][m] = 0.0      # otherwise some of the moisture sits outside the liquid phase
     elif t in ('partition', 'phase_fraction'):
         c['feed'] = gflows(rng, n, pzero=0.15)
         k = rng.randrange(1, 5)
@@ -65,9 +83,17 @@ def gen_case(rng):
         c['bottom'] = [i for i in rest if i not in c['top'] and rng.random() < 0.3]
         c['phi'] = rng.choice([None, None, round(rng.random(), 3)])
         c['strict'] = rng.random() < 0.3
+        u = rng.random()
+        if u < 0.06: c['K'] = [c['K'][0]] * k                                    # all partition coefficients equal
+        elif u < 0.10: c['K'] = [1.0] * k                                        # ... and equal to one (no separation)
+        elif u < 0.16 and k > 1: c['K'][1] = c['K'][0]                           # a repeated value
+        elif u < 0.20: c['K'][rng.randrange(k)] = 1.0
+        c['topstr'] = len(c['top']) == 1 and rng.random() < 0.5                  # a single forced chemical given as a bare string (as in the docstring's bottom_chemicals=('NaCl'))
+        c['botstr'] = len(c['bottom']) == 1 and rng.random() < 0.5
     elif t == 'phase_split':
         c['phases'] = rng.choice(['lg', 'lL', 'gls', 'lLg'])
         c['rows'] = [gflows(rng, n) for _ in c['phases']]
+        if rng.random() < 0.25: c['phases'] = rng.choice('lgs'); c['rows'] = c['rows'][:1]; c['as_stream'] = rng.random() < 0.7      # one phase: a Stream (or a one-phase MultiStream) and one outlet
     elif t == 'chemical_splits':
         c['a'] = gflows(rng, n, 0.1); c['b'] = gflows(rng, n, 0.1)
     elif t == 'material_balance':
@@ -81,10 +107,27 @@ def gen_case(rng):
     elif t == 'vle':
         c['feed'] = [round(10 ** rng.uniform(0, 2), 3), round(10 ** rng.uniform(0, 2), 3), 0.0, round(10 ** rng.uniform(-1, 2), 3) if rng.random() < 0.6 else 0.0, rng.choice([0.0, 0.05]), 0.0]
         c['spec'] = rng.choice([{'V': round(rng.uniform(0.1, 0.9), 3), 'P': 101325.}, {'T': round(rng.uniform(350, 370), 2), 'P': 101325.}, {'V': round(rng.uniform(0.1, 0.9), 3), 'T': round(rng.uniform(330, 360), 2)}])
+        u = rng.random()
+        if u < 0.15: c['spec'] = {'Q': round(rng.uniform(-1, 1) * 4e4 * sum(c['feed']), 1), 'P': 101325.}                  # duty (kJ/hr): up to about +-the heat of vaporisation of the feed
+        elif u < 0.30:
+            c['feed'] = c['feed'][:2] + [0.0] * 4                                                                          # x / y specifications are for binary mixtures
+            xy = rng.choice('xy'); z = c['feed'][0] / (c['feed'][0] + c['feed'][1])
+            # water is the heavier component: a liquid somewhat richer / a vapour somewhat leaner in water than the feed is usually attainable (otherwise the library refuses)
+            w = round(min(0.98, max(0.02, z + (1 if xy == 'x' else -1) * rng.uniform(0.005, 0.12) + (rng.uniform(-0.25, 0.25) if rng.random() < 0.2 else 0.0))), 3)
+            c['spec'] = {xy: [w, round(1 - w, 3)], rng.choice('PPT'): None}
+            c['spec'] = {k_: ((101325. if k_ == 'P' else round(rng.uniform(352, 372), 2)) if v is None else v) for k_, v in c['spec'].items()}
+        elif u < 0.42: c['spec'] = {'T': round(rng.choice([rng.uniform(300, 345), rng.uniform(380, 400)]), 2), 'P': 101325.}     # far below the bubble point / above the dew point
+        elif u < 0.48: c['spec'] = {'V': rng.choice([0.0, 1.0]), 'P': 101325.}
+        c['ms'] = rng.random() < 0.3                                                                                       # multi_stream= given (holding stale content)
     elif t == 'lle':
         c['feed'] = [round(10 ** rng.uniform(0, 2), 3), round(10 ** rng.uniform(-1, 1), 3), round(10 ** rng.uniform(0, 2), 3), 0.0, 0.0, 0.0]
         c['eff'] = rng.choice([1.0, 0.0, round(rng.random(), 3)])
         c['topchem'] = rng.choice([None, 'Octanol', 'Water'])
+        u = rng.random()
+        if u < 0.12: c['feed'][2] = 0.0                                          # no solvent: one liquid phase
+        elif u < 0.2: c['feed'][2] = round(10 ** rng.uniform(-4, -2), 6)         # a trace of solvent
+        elif u < 0.25: c['feed'][0] = 0.0
+        c['ms'] = rng.random() < 0.3
     return c
 
 
@@ -113,8 +156,19 @@ def run_case(case, rec):
     with warnings.catch_warnings():
         warnings.simplefilter('ignore')
         try:
+            def inlet(k, f):
+                # added inlet kinds: a gas/liquid MultiStream (flows divided between the phases) or a gas stream
+                if case.get('ms_in', [False] * (k + 1))[k]:
+                    m_ = tmo.MultiStream(None, phases=('g', 'l'), thermo=th)
+                    for i, v, fr in zip(ids, f, case['frac']):
+                        if i == 'Glucose': fr = 0.0                      # no gas-phase enthalpy model for the solid-reference chemical
+                        if v: m_.imol['g', i] = v * fr; m_.imol['l', i] = v - v * fr
+                    rec.hit('mix_and_split:multistream-inlet'); return m_
+                if case.get('gas_in', [False] * (k + 1))[k]: return mk(th, [0.0 if i == 'Glucose' else v for i, v in zip(ids, f)], 'g')
+                return mk(th, f)
             if t == 'mix_and_split':
-                ins = [mk(th, f) for f in case['ins']]; top, bot = outlet(0), outlet(1)
+                ins = [inlet(k, f) for k, f in enumerate(case['ins'])]; top, bot = outlet(0), outlet(1)
+                if case.get('top_in'): ins.append(top); rec.hit('mix_and_split:top-among-inlets'); tag += '/top-among-inlets'
                 before = [arr(i).copy() for i in ins]
                 split = np.array(case['split']) if isinstance(case['split'], list) else case['split']
                 sep.mix_and_split(ins, top, bot, split)
@@ -124,39 +178,68 @@ def run_case(case, rec):
                 if (sum(before) > 0).sum() >= 2 and arr(top).any() and arr(bot).any(): rec.mark_nontrivial(case_hash(case))
             elif t in ('moisture', 'mixmoist'):
                 mc = case['mc']
+                mID = case.get('mID'); W = mID or 'Water'            # the moisture chemical (ID= given for anything but water)
+                kwID = {'ID': mID} if mID else {}
+                if mID: rec.hit('moisture:ID')
+                msk = case.get('ms')
+                tot = lambda s_, i: float(np.sum(s_.imass[i]))
                 if t == 'moisture':
-                    ret = mk(th, case['ret']); perm = mk(th, case['perm'])
+                    if msk:
+                        def mkms(rl, r2):
+                            m_ = tmo.MultiStream(None, phases=tuple(msk), thermo=th)
+                            for ph_, row in (('l', rl), (msk[1], r2)):
+                                for i, v in zip(ids, row):
+                                    if v: m_.imol[ph_, i] = v
+                            return m_
+                        ret = mkms(case['ret'], case['ret2']); perm = mkms(case['perm'], case['perm2'])
+                        rec.hit('moisture:multistream')
+                        if ret.imol[msk[1], W] or perm.imol[msk[1], W]: rec.hit('moisture:multistream:moisture-in-other-phase')
+                    else:
+                        ret = mk(th, case['ret']); perm = mk(th, case['perm'])
                     if case['enough']:
-                        dry = ret.F_mass - ret.imass['Water']
-                        need = dry * mc / (1 - mc) - ret.imass['Water']
-                        if perm.imass['Water'] < need: perm.imass['Water'] = need * 1.5 + 1.0
+                        dry = ret.F_mass - tot(ret, W)
+                        need = dry * mc / (1 - mc) - tot(ret, W)
+                        have = float(perm.imass['l', W]) if msk else float(perm.imass[W])
+                        if have < need:
+                            if msk: perm.imass['l', W] = need * 1.5 + 1.0
+                            else: perm.imass[W] = need * 1.5 + 1.0
                     before = [arr(ret).copy(), arr(perm).copy()]
                     strict = case.get('strict')
-                    run = (lambda: sep.adjust_moisture_content(ret, perm, mc)) if strict is None else (lambda: sep.adjust_moisture_content(ret, perm, mc, strict=strict))
+                    run = (lambda: sep.adjust_moisture_content(ret, perm, mc, **kwID)) if strict is None else (lambda: sep.adjust_moisture_content(ret, perm, mc, strict=strict, **kwID))
                     if strict is False: rec.hit('moisture:strict=False')
                 else:
-                    ins = [mk(th, f) for f in case['ins']]; ret, perm = outlet(0), outlet(1)
+                    ins = [inlet(k, f) for k, f in enumerate(case['ins'])]; ret, perm = outlet(0), outlet(1)
                     before = [arr(i).copy() for i in ins]
                     split = np.array(case['split']) if isinstance(case['split'], list) else case['split']
-                    run = lambda: sep.mix_and_split_with_moisture_content(ins, ret, perm, split, mc)
+                    run = lambda: sep.mix_and_split_with_moisture_content(ins, ret, perm, split, mc, **kwID)
                 try:
                     run()
                 except InfeasibleRegion:
                     rec.refuse('not enough water (documented InfeasibleRegion)'); return
-                balance(rec, 'moisture', tag if t == 'mixmoist' else 'adjust', before, [arr(ret), arr(perm)], t)
+                mbase = tag if t == 'mixmoist' else 'adjust'
+                mtag = mbase + ('/ID' if mID else '') + ('/multistream' if msk else '')
+                if t == 'mixmoist' and (any(case.get('ms_in', [])) or any(case.get('gas_in', []))): mtag += '/gas-or-multistream-inlet'
+                balance(rec, 'moisture', mtag, before, [arr(ret), arr(perm)], t)
+                if msk:
+                    negp = [float(v) for s_ in (ret, perm) for v in s_.imol.data.to_array().ravel() if v < 0]
+                    rec.check(not negp, 'moisture', f'negative-phase-flow/{mtag}', f'{t}: negative phase flows {negp[:4]} without an infeasibility report')
                 Fm = ret.F_mass
-                dry = Fm - ret.imass['Water']
-                if t == 'moisture' and case.get('strict') is False and not case['enough'] and perm.imol['Water'] == 0:
+                dry = Fm - tot(ret, W)
+                if t == 'moisture' and case.get('strict') is False and not case['enough'] and float(perm.imol['l', W] if msk else perm.imol[W]) == 0:
                     # not enough water and infeasibility not reported: the balance and the signs (judged above) are all that can be asked
                     rec.hit('moisture:strict=False:short'); rec.mark_nontrivial(case_hash(case)); return
                 if dry > 0:
-                    got = ret.imass['Water'] / Fm
-                    rec.check(abs(got - mc) <= 1e-9, 'moisture', 'target', f'{t}: retentate moisture fraction {got!r} != requested {mc}', residual=abs(got - mc))
+                    got = tot(ret, W) / Fm
+                    rec.check(abs(got - mc) <= 1e-9, 'moisture', 'target' + mtag[len(mbase):], f'{t}: retentate moisture fraction {got!r} != requested {mc}', residual=abs(got - mc))
                     rec.mark_nontrivial(case_hash(case))
             elif t in ('partition', 'phase_fraction'):
                 feed = mk(th, case['feed'])
                 IDs = tuple(ids[i] for i in case['ids']); K = np.array(case['K'])
                 topc = tuple(ids[i] for i in case['top']) or None; botc = tuple(ids[i] for i in case['bottom']) or None
+                if case.get('topstr'): topc = topc[0]; rec.hit('forced:bare-string')          # one forced chemical as a bare string
+                if case.get('botstr'): botc = botc[0]; rec.hit('forced:bare-string')
+                if len(set(case['K'])) < len(case['K']) or (len(case['K']) == 1 and case['K'][0] == 1.0): rec.hit('partition:equal-K')
+                if 1.0 in case['K']: rec.hit('partition:unit-K')
                 fb = arr(feed).copy()
                 if not fb[case['ids'] + case['top'] + case['bottom']].sum():
                     rec.refuse('no material among the listed chemicals (composition undefined; not judged)'); return
@@ -200,8 +283,23 @@ def run_case(case, rec):
                     # entries clipped by handle_infeasible_flow_rates (bottom = feed or 0) are exempt: they cannot be in both outlets
                     spread = float(r.max() / r.min() - 1)
                     rec.check(spread <= 1e-6, 'partition', f'K-ratio/{ptag}', f'(y/x)/K not one common factor: {r.tolist()} (phi={phi})', residual=spread)
+                    # the library's own read-out of the achieved coefficients (mol fractions over the listed chemicals) must show the same common factor
+                    Kc = np.asarray(sep.partition_coefficients(IDs, top, bot), float)
+                    pos = {i: m for m, i in enumerate(case['ids'])}
+                    r2 = np.array([Kc[pos[i]] / Kd[i] for i in idx])
+                    spread2 = float(r2.max() / r2.min() - 1) if r2.min() > 0 else float('inf')
+                    rec.hit('partition_coefficients')
+                    rec.check(len(Kc) == len(IDs) and spread2 <= 1e-6, 'partition', f'partition_coefficients/{ptag}', f'partition_coefficients(IDs, top, bottom)/K not one common factor: {r2.tolist()} (phi={phi})', residual=spread2)
                     rec.mark_nontrivial(case_hash(case))
                 elif fb.any() and (fb > 0).sum() >= 2: rec.mark_nontrivial(case_hash(case))
+            elif t == 'phase_split' and case.get('as_stream'):
+                # a single-phase Stream and one outlet
+                fs = mk(th, case['rows'][0], case['phases'])
+                fb = arr(fs).copy(); o = outlet(0)
+                sep.phase_split(fs, [o])
+                rec.hit('phase_split:stream')
+                rec.check(np.array_equal(arr(o), fb) and o.phase == case['phases'] and np.array_equal(arr(fs), fb), 'phase_split', f'stream/{tag}', f'single-phase feed {fb.tolist()} ({case["phases"]}): outlet phase {o.phase}, flows {arr(o).tolist()}, feed afterwards {arr(fs).tolist()}')
+                rec.mark_nontrivial(case_hash(case))
             elif t == 'phase_split':
                 ms = tmo.MultiStream(None, phases=tuple(case['phases']), thermo=th)
                 for p, row in zip(case['phases'], case['rows']):
@@ -248,8 +346,16 @@ def run_case(case, rec):
                 feed = mk(th, case['feed'], T=340.)
                 vap, liq = outlet(0, 'l'), outlet(1, 'g')
                 fb = arr(feed).copy()
+                spec = {k_: (np.array(v) if isinstance(v, list) else v) for k_, v in case['spec'].items()}
+                msv = None
+                if case.get('ms'):
+                    msv = tmo.MultiStream(None, phases=('g', 'l'), thermo=th)         # handed over holding content of an earlier run
+                    for k_, ph_ in enumerate('gl'):
+                        for i, v in zip(ids, case['stale_flows'][k_]):
+                            if v: msv.imol[ph_, i] = v
+                    spec['multi_stream'] = msv
                 try:
-                    sep.vle(feed, vap, liq, **case['spec'])
+                    sep.vle(feed, vap, liq, **spec)
                 except Exception as e:
                     # the balance is stated for calls that return; a raise inside the equilibrium solver is counted, programming errors are still reported
                     if not isinstance(e, (TypeError, AttributeError, KeyError, IndexError, NameError, UnboundLocalError)): rec.refuse(f'vle raised: {type(e).__name__}'); return
@@ -257,13 +363,35 @@ def run_case(case, rec):
                 balance(rec, 'vle-wrapper', tag, [fb], [arr(vap), arr(liq)], 'separations.vle')
                 rec.check(vap.phase == 'g' and liq.phase == 'l' and vap.T == liq.T and vap.P == liq.P, 'vle-wrapper', 'routing', f'vapour outlet phase {vap.phase}, liquid outlet phase {liq.phase}, T {vap.T}/{liq.T}')
                 rec.check(np.array_equal(arr(feed), fb), 'vle-wrapper', 'feed-changed', 'separations.vle changed the feed')
+                if 'Q' in case['spec']: rec.hit('vle:Q')
+                if 'x' in case['spec'] or 'y' in case['spec']: rec.hit('vle:x-or-y')
+                if arr(vap).any() != arr(liq).any(): rec.hit('vle:one-outlet-empty')
+                if msv is not None:
+                    rec.hit('vle:multi_stream')
+                    rec.check(np.array_equal(msv.imol['g'].to_array(), arr(vap)) and np.array_equal(msv.imol['l'].to_array(), arr(liq)), 'vle-wrapper', 'multi_stream',
+                              f'multi_stream phase rows {msv.imol.data.to_array().tolist()} != outlets {arr(vap).tolist()} / {arr(liq).tolist()}')
+                if arr(vap).any() and arr(liq).any():
+                    IDk, Kk = sep.vle_partition_coefficients(vap, liq)
+                    rec.hit('vle_partition_coefficients')
+                    Kk = np.asarray(Kk, float); yv = arr(vap) / arr(vap).sum(); xl = arr(liq) / arr(liq).sum()
+                    pos = [ids.index(i) for i in IDk]
+                    sub_y = yv[pos] / yv[pos].sum() if yv[pos].sum() else yv[pos]; sub_x = xl[pos] / xl[pos].sum() if xl[pos].sum() else xl[pos]
+                    okk = len(Kk) == len(IDk) and all(abs(k_ * max(x_, 1e-24) - y_) <= 1e-9 * max(y_, 1e-300) + 1e-300 for k_, x_, y_ in zip(Kk, sub_x, sub_y))
+                    rec.check(okk, 'vle-wrapper', 'partition-coefficients', f'vle_partition_coefficients(vap, liq) = {dict(zip(IDk, Kk.tolist()))} but y/x over these chemicals = {[(y_ / x_ if x_ else None) for x_, y_ in zip(sub_x, sub_y)]}')
                 if arr(vap).any() and arr(liq).any(): rec.mark_nontrivial(case_hash(case))
             elif t == 'lle':
                 feed = mk(th, case['feed'], T=300.)
                 top, bot = outlet(0), outlet(1)
                 fb = arr(feed).copy()
+                kwl = {}
+                if case.get('ms'):
+                    msl = tmo.MultiStream(None, phases=('L', 'l'), thermo=th)         # handed over holding content of an earlier run
+                    for k_, ph_ in enumerate('Ll'):
+                        for i, v in zip(ids, case['stale_flows'][k_]):
+                            if v: msl.imol[ph_, i] = v
+                    kwl['multi_stream'] = msl
                 try:
-                    sep.lle(feed, top, bot, top_chemical=case['topchem'], efficiency=case['eff'])
+                    sep.lle(feed, top, bot, top_chemical=case['topchem'], efficiency=case['eff'], **kwl)
                 except Exception as e:
                     # the balance is stated for calls that return; a raise inside the equilibrium solver is counted, programming errors are still reported
                     if not isinstance(e, (TypeError, AttributeError, KeyError, IndexError, NameError, UnboundLocalError)): rec.refuse(f'lle raised: {type(e).__name__}'); return
@@ -271,6 +399,21 @@ def run_case(case, rec):
                 balance(rec, 'lle-wrapper', tag + f'/eff{"=1" if case["eff"] == 1 else ("=0" if case["eff"] == 0 else "<1")}', [fb], [arr(top), arr(bot)], 'separations.lle')
                 rec.check(np.array_equal(arr(feed), fb), 'lle-wrapper', 'feed-changed', 'separations.lle changed the feed')
                 if case['eff'] == 0: rec.check(np.allclose(arr(top), arr(bot), rtol=1e-12), 'lle-wrapper', 'eff=0', 'with efficiency 0 the feed is not divided equally')
+                if kwl:
+                    rec.hit('lle:multi_stream')
+                    tot_ms = msl.imol.data.to_array().sum(0)
+                    rec.check(bool(np.all(np.abs(tot_ms - fb) <= 1e-11 * np.maximum(fb, tot_ms) + 1e-13 * fb.max())), 'lle-wrapper', 'multi_stream', f'multi_stream holds {tot_ms.tolist()} in total but the feed is {fb.tolist()}')
+                    if case['eff'] == 1:
+                        rows = sorted([msl.imol['L'].to_array().tolist(), msl.imol['l'].to_array().tolist()]); outs_ = sorted([arr(top).tolist(), arr(bot).tolist()])
+                        rec.check(rows == outs_, 'lle-wrapper', 'multi_stream-rows', f'multi_stream phase rows {rows} are not the two outlets {outs_}')
+                if not case['feed'][2] or not case['feed'][0] or not (arr(top).any() and arr(bot).any()): rec.hit('lle:single-liquid')
+                if arr(top).any() and arr(bot).any() and case['eff'] == 1:
+                    IDk, Kk = sep.lle_partition_coefficients(top, bot)
+                    rec.hit('lle_partition_coefficients')
+                    Kk = np.asarray(Kk, float); pos = [ids.index(i) for i in IDk]
+                    yt_ = arr(top)[pos] / arr(top)[pos].sum(); xb_ = arr(bot)[pos] / arr(bot)[pos].sum()
+                    okk = len(Kk) == len(IDk) and all(abs(k_ * max(x_, 1e-24) - y_) <= 1e-9 * max(y_, 1e-300) + 1e-300 for k_, x_, y_ in zip(Kk, xb_, yt_))
+                    rec.check(okk, 'lle-wrapper', 'partition-coefficients', f'lle_partition_coefficients(top, bottom) = {dict(zip(IDk, Kk.tolist()))} but top/bottom mol fractions over these chemicals = {[(y_ / x_ if x_ else None) for x_, y_ in zip(xb_, yt_)]}')
                 if arr(top).any() and arr(bot).any(): rec.mark_nontrivial(case_hash(case))
         except Exception as e:
             rec.exception(t, e, what=f'{t} ({tag}) raised {type(e).__name__}: {str(e)[:160]}')
